@@ -200,3 +200,28 @@ def negative_scene(rng, size='tiny', name=''):
 
 def negative_scenes(seed, n, size='tiny', tag='N'):
     return [negative_scene(random.Random(f'{tag}:{size}:{seed}:{i}'), size=size, name=f'{tag}-{size}-{seed}-{i}') for i in range(n)]
+
+
+def lone_multihit_scene(rng, name=''):
+    """ a deck, plus clusters made only of the simultaneous higher hits of ONE measurement (several member hits, one measurement) """
+    ceilos = ['a', 'b'][:rng.choice([1, 2])]
+    nt = rng.randint(8, 30)
+    H = rng.choice([300, 1000, 2500])
+    lone = {(rng.choice(ceilos), rng.randrange(nt)): rng.choice([2, 3]) for _ in range(rng.choice([1, 1, 2]))}
+    rows = []
+    for c in ceilos:
+        for t in range(nt):
+            dt = -DT * (nt - 1 - t)
+            rows.append([c, dt, H + rng.choice([0, 0, 10, 20]), 1])
+            if (c, t) in lone:
+                top = H + rng.choice([4000, 9000, 14000])
+                for k in range(lone[(c, t)]):
+                    rows.append([c, dt, top + k * rng.choice([30, 60, 90]), k + 2])
+    prms = {'MAX_HITS_OKTA0': 0, 'MAX_HOLES_OKTA8': rng.choice([0, 1])}
+    if rng.random() < 0.3:
+        prms['BASE_LVL_HEIGHT_PERC'] = rng.choice([50, 100])
+    return {'family': 'R-lonemulti', 'name': name, 'rows': rows, 'prms': prms, 'indomain': True}
+
+
+def lone_multihit_scenes(seed, n, tag='L'):
+    return [lone_multihit_scene(random.Random(f'{tag}:{seed}:{i}'), name=f'{tag}-lonemulti-{seed}-{i}') for i in range(n)]
